@@ -31,3 +31,11 @@ pub fn first(args: &[BytecodePrimitive]) -> FFIReturnValue {
 pub fn fail(_args: &[BytecodePrimitive]) -> FFIReturnValue {
     raise_error!("boom from foreign code")
 }
+
+/// prints its arguments and returns no value
+#[no_mangle]
+pub fn nothing(args: &[BytecodePrimitive]) -> FFIReturnValue {
+    let shown: Vec<String> = args.iter().map(|a| format!("{a}")).collect();
+    println!("NOTHING[{TAG}] n={} args=[{}]", args.len(), shown.join(","));
+    FFIReturnValue::NoValue
+}
